@@ -98,8 +98,8 @@ def _ptr_empty(e, c):
 
 @matcher("thrift.known-deviation")
 def _thrift_dev(e, c):
-    """t.enc: the bytes differ from the specification only by recorded deviations, and the one named by the entry is among them."""
-    if c.fn != "t.enc" or not c.oracle.startswith("spec="):
+    """t.enc / t.msg: the bytes differ from the specification only by recorded deviations, and the one named by the entry is among them."""
+    if c.fn not in ("t.enc", "t.enc.x", "t.msg", "p.customwire") or not c.oracle.startswith("spec="):
         return False
     m = re.search(r"known-deviations=([a-z0-9,]*)", c.oracle)
     return bool(m) and e.get("deviation") in m.group(1).split(",")
